@@ -191,7 +191,7 @@ def rule_lines(lines, spec):
     """` WR|UR <i> <hex>` lines -> normalised, printable rule text; ` TWR` lines are folded into the TYPE line (` wr=a|b`)"""
     out = []
     for l in lines:
-        m = re.match(r" (WR|UR|TWR|DI) (\S+) ([0-9a-f]*|NULL)$", l)
+        m = re.match(r" (WR|UR|TWR|DI|SS) (\S+) ([0-9a-f]*|NULL)$", l)
         if not m:
             out.append(l); continue
         try:
@@ -461,7 +461,7 @@ def oracle_raw(R):
         for l in lines:
             if l.startswith("ENTITY "):
                 cur = l.split(" ")[1]; d[cur] = [l]
-            elif l.startswith((" ATTR", " INV", " UR ", " WR ", " DI ")) and cur:
+            elif l.startswith((" ATTR", " INV", " UR ", " WR ", " DI ", " SS ")) and cur:
                 d[cur].append(l)
             else:
                 cur = None
@@ -475,7 +475,7 @@ def oracle_raw(R):
             cls = "entity"
             if diff[1] and diff[1].startswith(" ATTR") and diff[0] and "type=NULL" in diff[0]:
                 cls = "attr-type-null"
-            if [x for x in g if not x.startswith((" UR ", " WR ", " DI "))] == [x for x in bl if not x.startswith((" UR ", " WR ", " DI "))]:
+            if [x for x in g if not x.startswith((" UR ", " WR ", " DI ", " SS "))] == [x for x in bl if not x.startswith((" UR ", " WR ", " DI ", " SS "))]:
                 cls = "entity-rules"
             probs.append((f"mirror:{cls}", f"entity {n}: dictionary has {diff[0]!r}, schema requires {diff[1]!r}", ("entity", decl)))
     for n in gb:
@@ -724,7 +724,7 @@ def schema_json(s):
                                     for t in s.types],
                 entities=[dict(name=e["name"], abstract=e["abstract"], supers=e["supers"],
                                attrs=[{k: untup(v) for k, v in a.items()} for a in e["attrs"]],
-                               **{k: e[k] for k in ("uniques", "wheres") if e.get(k)}) for e in s.entities])
+                               **{k: e[k] for k in ("uniques", "wheres", "superexpr") if e.get(k)}) for e in s.entities])
 
 
 def schema_from_json(d):
@@ -743,6 +743,8 @@ def schema_from_json(d):
             x["uniques"] = rules(e["uniques"], "attrs")
         if e.get("wheres"):
             x["wheres"] = rules(e["wheres"], "expr")
+        if e.get("superexpr"):
+            x["superexpr"] = e["superexpr"]
         s.entities.append(x)
     return s
 
@@ -802,6 +804,11 @@ def without(s, kind, name):
         for x in t.types + t.entities:
             if x["name"] == name:
                 x.pop("wheres", None); x.pop("uniques", None)
+        return t
+    if kind == "superexpr":      # without the supertype constraint of one entity
+        for x in t.entities:
+            if x["name"] == name:
+                x.pop("superexpr", None)
         return t
     if kind == "rule":           # without one rule
         n, k, i = name
@@ -863,7 +870,13 @@ def without(s, kind, name):
 
 
 def prune_rules(t):
-    """rules that mention an attribute which is no longer there go"""
+    """rules that mention an attribute which is no longer there go; so does a supertype constraint that names a subtype that left"""
+    for e in t.entities:
+        if e.get("superexpr"):
+            subs = {x["name"] for x in t.entities if e["name"] in x["supers"]}
+            toks = set(re.findall(r"[A-Za-z_][A-Za-z0-9_]*", e["superexpr"])) - {"ONEOF", "AND", "ANDOR"}
+            if not toks <= subs:
+                e.pop("superexpr")
     for e in t.entities:
         have = {a["name"] for m in G.Gen._anc(t, [e["name"]]) for a in t.Ent(m)["attrs"]}
         for k in ("uniques", "wheres"):
@@ -874,7 +887,7 @@ def prune_rules(t):
 
 def size_of(t):
     return (len(t.entities), len(t.types), sum(len(e["attrs"]) for e in t.entities),
-            sum(len(x.get("wheres", [])) + len(x.get("uniques", [])) for x in t.types + t.entities))
+            sum(len(x.get("wheres", [])) + len(x.get("uniques", [])) + (1 if x.get("superexpr") else 0) for x in t.types + t.entities))
 
 
 def shrink_schema(ctx, b, model_exe, s, key, rounds=12):
@@ -884,6 +897,7 @@ def shrink_schema(ctx, b, model_exe, s, key, rounds=12):
         cands = [("entity", e["name"]) for e in best.entities] + [("type", t["name"]) for t in best.types]
         cands += [("attr", (e["name"], a["name"])) for e in best.entities for a in e["attrs"] if not a["redecl"]]
         cands += [("rules", x["name"]) for x in best.types + best.entities if x.get("wheres") or x.get("uniques")]
+        cands += [("superexpr", x["name"]) for x in best.entities if x.get("superexpr")]
         n_rules = size_of(best)[3]
         if n_rules <= 12:
             cands += [("rule", (x["name"], k, i)) for x in best.types + best.entities for k in ("wheres", "uniques")
